@@ -185,6 +185,7 @@ fn run_typed<P: SimPrefix>(script: &Script, known: Arc<Vec<Finding>>) -> RunResu
         known_hits: vec![],
         known,
         rare: 0,
+        also: vec![],
     };
     let mut log_hash: u64 = mix64(script.seed);
     let mut steps_done = 0;
